@@ -7,10 +7,12 @@ import PeroVerif.Drv.Common
 import PeroVerif.Drv.C02
 import PeroVerif.Drv.C04
 import PeroVerif.Drv.C05
+import PeroVerif.Drv.C09
 import PeroVerif.Drv.C13
 import PeroVerif.Drv.C14
 import PeroVerif.Drv.C15
 import PeroVerif.Drv.C16
+import PeroVerif.Drv.C19
 open Lean Drv
 
 def dispatch (p : String) : Option Handler :=
@@ -19,10 +21,12 @@ def dispatch (p : String) : Option Handler :=
   | "C03" => some Drv.C02.handle
   | "C04" => some Drv.C04.handle
   | "C05" => some Drv.C05.handle
+  | "C09" => some Drv.C09.handle
   | "C13" => some Drv.C13.handle
   | "C14" => some Drv.C14.handle
   | "C15" => some Drv.C15.handle
   | "C16" => some Drv.C16.handle
+  | "C19" => some Drv.C19.handle
   | _ => none
 
 def handleLine (line : String) : String :=
